@@ -47,6 +47,22 @@ def kind_of(msg):
     return 'other'
 
 
+def proof_internal(f):
+    """True for failures of the PROOF rather than of an obligation generated from the code: an `assert` of a spliced
+    proof block, a spliced loop invariant, the precondition of a lemma called from a proof block. After such a failure
+    Verus assumes the failed fact, so the function's own obligations cannot be read off either way; the verdict is then
+    left to the runtime contract check of the function (concrete failing input => violation, none => undecided).
+    Postconditions, callee preconditions of executable calls (incl. index bounds), arithmetic and `decreases` are
+    obligations generated from the code and are reported directly."""
+    k = kind_of(f['message'])
+    if k in ('assert', 'inv', 'other'):
+        return True
+    if k == 'pre':
+        call = ' '.join(s['text'] for s in f['spans'] if s.get('primary'))
+        return bool(re.search(r'\b(lemma_\w+|lev_\w+)\s*\(', call))
+    return False
+
+
 def obligation_id(unit, f):
     extra = ''
     if kind_of(f['message']) == 'pre':
@@ -168,7 +184,7 @@ def run_verus_units(pid, unit_names, out, tier, variants=None):
             # A failed `assert` inside a spliced proof block is a failed proof HINT, not an obligation generated
             # from the code; when nothing but hints fail in a function the verdict is left to the runtime contract
             # check of that function (main.py): a concrete failing input => violation, none => undecided.
-            hint_only = bool(unknown) and all(kind_of(f['message']) in ('assert', 'other') for _, f in unknown)
+            hint_only = bool(unknown) and all(proof_internal(f) for _, f in unknown)
             for oid, f in unknown:
                 out.violations.append({'obligation': oid, 'unit': uname, 'function': pc.name, 'repo': pc.origin,
                                        'message': f['message'], 'spans': f['spans'], 'verifier_output': f['rendered'],
